@@ -140,17 +140,20 @@ def gen_cases(rng, tier):
                       "n": rng.choice([1, 2, _edge(order) - 1, _edge(order)]), "sps": 16, "R": 1e9,
                       "npol": rng.choice([1, 2]) if sdev == "bpf" else 1,
                       "noise": False, "scale": 1.0, "seed": rng.getrandbits(32), "form": "container"})
-    # histories: the same (BW, order) under 3 sampling rates in sequence and back to the first, inside ONE run_impl
+    rng.shuffle(cases)
+    # histories: the same (BW, order) under 3 sampling rates in sequence and back to the first, inside ONE run_impl.
+    # They run FIRST: a violation that needs a history is then reported from a self-contained (replayable) case.
+    hist = []
     for order in range(1, 9):
         for hdev in (["lpf", "bpf", "lpf-fs"] if not quick else [["lpf", "bpf", "lpf-fs"][(order + j) % 3] for j in range(2)]):
             for _ in range(1 if quick else 3):
                 seq = rng.sample(GVS_FIXED, 3)
                 seq = seq + [seq[0]]
-                cases.append({"kind": "hist", "dev": hdev, "order": order, "wn": rng.choice(WN_FIXED), "seq": [list(g) for g in seq],
+                hist.append({"kind": "hist", "dev": hdev, "order": order, "wn": rng.choice(WN_FIXED), "seq": [list(g) for g in seq],
                               "sps": seq[0][0], "R": seq[0][1], "n": rng.randint(_edge(order) + 1, 90), "npol": rng.choice([1, 2]) if hdev == "bpf" else 1,
                               "noise": rng.random() < 0.5, "scale": 1.0, "seed": rng.getrandbits(32)})
-    rng.shuffle(cases)
-    return cases
+    rng.shuffle(hist)
+    return hist + cases
 
 
 # ------------------------------------------------------------------------------------------------ data
@@ -619,7 +622,7 @@ def _request(devn, p, s, nz):
     for row, z in zip(p["sos"], p["zi"]):
         secs += [enc_f(row[0]), enc_f(row[1]), enc_f(row[2]), enc_f(row[4]), enc_f(row[5]), enc_f(z[0]), enc_f(z[1])]
     noise = "0" if nz is None else "1 " + _enc_rows(nz)
-    return [f"filter.{devn} {p['edge']} {' '.join(secs)} {_enc_rows(s)} {noise}"]
+    return f"filter.{devn} {p['edge']} {' '.join(secs)} {_enc_rows(s)} {noise}"
 
 
 def _read_sig(reply, cplx):
